@@ -1,2 +1,61 @@
-From BFS Require Import Backup.History.
-Example placeholder_C13 : True. Proof. exact I. Qed.
+(** C13 — Rollback stays within the footprint of the transaction.
+
+    Proved here, for EVERY [base backup : fsapi] and EVERY world (no law about
+    the filesystems assumed), by API restriction (Proofs/Footprint.v):
+    [guard_api P a] is [a] with every method replaced by a trap (stopping the
+    whole computation) when the path argument does not satisfy [P] (Rename:
+    both names; Symlink: the location of the link); [only_methods ms a] traps
+    every method outside the set [ms].
+
+    - [C13_rollback_tracked_paths_only]: with [tracked w p] := "[p] is a key of
+      [baseInfos] in [w]", Rollback started in [w] runs identically when both
+      filesystems trap on every untracked path: every call Rollback makes on
+      the base or on the backup has a path that was tracked when Rollback
+      started.  No variant with ancestors is needed: Rollback calls no method
+      on a parent or any other derived path.
+      [C13_rollback_guard] is the general form (any [P] containing the keys).
+    - [C13_rollback_methods]: on the backup Rollback uses only Lstat, Open,
+      Readlink, Remove (never RemoveAll, Rename, nor any other mutator); on the
+      base only Lstat, Remove, RemoveAll, MkdirAll, Chmod, Chtimes, Chown,
+      OpenFile, Symlink, Lchown (never Rename, Create, Mkdir, Open, Stat,
+      Readlink).
+    - [C13_rollback_footprint]: both at once.
+
+    NOT proved here (and not provable by this technique): what happens INSIDE
+    a method of the base.  [base.RemoveAll p] (used by [restore_file] when the
+    backup copy at [p] is not a regular file, and by [restore_symlink] when
+    anything exists at [p]) removes the whole subtree below the tracked path
+    [p], tracked or not; [base.MkdirAll p] creates missing ancestors of [p].
+    That Rollback restores the right content is C01/C04, not this property. *)
+From stdpp Require Import gmap.
+From BFS Require Import Backup.History Proofs.Footprint.
+
+Theorem C13_tracked_meaning : forall w p,
+  tracked w p = true <-> is_Some (w_infos w !! p).
+Proof. intros w p. unfold tracked. apply bool_decide_eq_true. Qed.
+Print Assumptions C13_tracked_meaning.
+
+Theorem C13_rollback_tracked_paths_only : forall base backup w,
+  b_rollback (guard_api (tracked w) base) (guard_api (tracked w) backup) w
+  = b_rollback base backup w.
+Proof. exact b_rollback_tracked_only. Qed.
+Print Assumptions C13_rollback_tracked_paths_only.
+
+Theorem C13_rollback_guard : forall (P : str -> bool) base backup w,
+  (forall p, is_Some (w_infos w !! p) -> P p = true) ->
+  b_rollback (guard_api P base) (guard_api P backup) w = b_rollback base backup w.
+Proof. exact b_rollback_guard. Qed.
+Print Assumptions C13_rollback_guard.
+
+Theorem C13_rollback_methods : forall base backup w,
+  b_rollback (only_methods ms_rollback_base base) (only_methods ms_rollback_backup backup) w
+  = b_rollback base backup w.
+Proof. exact b_rollback_methods. Qed.
+Print Assumptions C13_rollback_methods.
+
+Theorem C13_rollback_footprint : forall base backup w,
+  b_rollback (guard_api (tracked w) (only_methods ms_rollback_base base))
+             (guard_api (tracked w) (only_methods ms_rollback_backup backup)) w
+  = b_rollback base backup w.
+Proof. exact b_rollback_footprint. Qed.
+Print Assumptions C13_rollback_footprint.
